@@ -216,8 +216,8 @@ pub fn run_prop(ctx: &Ctx, sink: &mut Sink) {
                 _ => { let _ = std::fs::write(d.join(s), b""); subj_wire.push(s.clone()); }
             }
         }
-        // the pattern for -path must cover the directory part
-        let pat = if kind == "p" { format!("d/{p}") } else { p.clone() };
+        // the pattern for -path must cover the directory part; a -name pattern ending in a slash matches no name
+        let pat = if kind == "p" { format!("d/{p}") } else if kind == "n" && r % 5 == 1 { format!("{p}/") } else { p.clone() };
         let prim = match (kind, ic) { ("n", false) => "-name", ("n", true) => "-iname", ("p", false) => if rng.chance(1, 2) { "-path" } else { "-wholename" }, ("p", true) => if rng.chance(1, 2) { "-ipath" } else { "-iwholename" }, ("l", false) => "-lname", _ => "-ilname" };
         let args: Vec<String> = vec!["d".into(), "-mindepth".into(), "1".into(), prim.into(), pat.clone(), "-print0".into()];
         let o = find_inproc(&errf, &args, std::time::SystemTime::now(), Some(&dir));
